@@ -117,6 +117,9 @@ func matchReply(exp J, obs *Reply, ctx *MatchCtx) bool {
 		if want == "*" {
 			return true
 		}
+		if want == "" {
+			return code == ""
+		}
 		for _, w := range strings.Split(want, "|") { // several error conditions apply at once: any of their codes
 			if code == w {
 				return true
